@@ -111,6 +111,14 @@ CHECKS = {
     'C32': dict(engine='native-enum', category='other', design_ref='DESIGN.md §5 C32',
                 text='universal-model argument: the real reduce/accumulate run with concatenation on the free monoid, so agreement with functools/itertools for a length n holds for every '
                      'associative f; all n up to the bound, both methods, initial values, depth bounds', note='bounded in n (64 quick / 512 thorough), complete over f', technique='bounded evaluation on the free monoid'),
+    'C33': dict(engine='native-enum', category='other', design_ref='DESIGN.md §5 C33',
+                text='range/shape contracts of every function of mpyc/random.py on argument grids incl. population sizes 0 and 1 with deterministic PRSS seeds; uniformity decided by '
+                     'enumerating ALL secret-bit strings (random_bits stubbed) up to a stated length: counts per outcome exactly proportional to the documented probabilities at every depth',
+                note='bounded (n <= 9 quick / 17 thorough, permutations n <= 5 / 6; m = 1); led to four repairs in mpyc/random.py', technique='bounded exhaustive contract evaluation with exact bit-string enumeration'),
+    'C34': dict(engine='native-enum', category='other', design_ref='DESIGN.md §5 C34',
+                text='every function of mpyc/statistics.py on all small data sets (secure integers: tuples of length <= 4 over -3..3; fixed point: dyadic grids) against Python statistics on exact fractions; '
+                     'integer results within the documented rounding, fixed-point results within tolerances propagated from the C02 unit bounds',
+                note='bounded data sets; fixed-point tolerances are derived (none documented); one known finding (mode tie rule)', technique='bounded exhaustive contract evaluation against exact rational oracles'),
     'C35': dict(engine='pyvc+native-enum', category='other', design_ref='DESIGN.md §5 C35',
                 text='partial (safety half): barrier proved to return only when no earlier coroutine is pending (suspensions havoc the counters), shutdown structure by AST dominance, '
                      '_pc_level counting invariant evaluated on every completion path of mpc_coro', note='liveness (loops exit, all shutdowns complete) not decided',
